@@ -73,6 +73,8 @@ func loadFindings(path string) []Finding {
 	return fs
 }
 
+var noClosure bool
+
 func main() {
 	if len(os.Args) < 2 {
 		fmt.Fprintln(os.Stderr, "usage: gowp check|dump ...")
@@ -221,6 +223,7 @@ func cmdCheck(args []string) int {
 	keep := fs.Bool("keep", false, "keep SMT files")
 	verbose := fs.Bool("v", false, "verbose")
 	noEvidence := fs.Bool("no-evidence", false, "do not write evidence / replay files (self-test runs)")
+	fs.BoolVar(&noClosure, "no-closure", false, "verify only the contracts tagged for the property, not the contracted callees they rely on")
 	fs.Parse(args)
 	t0 := time.Now()
 	var pc PropConfig
@@ -269,6 +272,14 @@ func cmdCheck(args []string) int {
 	havocs := map[string]bool{}
 	inlined := map[string]bool{}
 	trustedFns := []string{}
+	// work list: the contracts tagged for this property, then - callee closure - every repository contract one of them
+	// relies on at a call site (a caller's proof assumes the callee's contract; the callee's own proof must therefore be
+	// part of the same check, whichever properties its props line names)
+	var work []*Contract
+	closureObs := map[*Obligation]bool{}
+	var closureFns []string
+	queued := map[string]bool{}
+	viaClosure := map[string]bool{}
 	for _, con := range sortedContracts(eng.contracts) {
 		if con.Extern {
 			continue
@@ -285,6 +296,11 @@ func cmdCheck(args []string) int {
 		if onlyRe != nil && !onlyRe.MatchString(con.CalleeKey) {
 			continue
 		}
+		work = append(work, con)
+		queued[con.CalleeKey] = true
+	}
+	for wi := 0; wi < len(work); wi++ {
+		con := work[wi]
 		if con.Trusted {
 			trustedFns = append(trustedFns, con.CalleeKey)
 			continue
@@ -307,6 +323,12 @@ func cmdCheck(args []string) int {
 		}()
 		funcs = append(funcs, con.CalleeKey)
 		obs = append(obs, enc.obls...)
+		if viaClosure[con.CalleeKey] {
+			closureFns = append(closureFns, con.CalleeKey)
+			for _, ob := range enc.obls {
+				closureObs[ob] = true
+			}
+		}
 		for n := range enc.notes {
 			notes[shortFn(fn)+": "+n] = true
 		}
@@ -321,6 +343,22 @@ func cmdCheck(args []string) int {
 		}
 		for n := range enc.autoInlined {
 			inlined[n] = true
+		}
+		if !noClosure && onlyRe == nil {
+			var ks []string
+			for k := range enc.usedCons {
+				ks = append(ks, k)
+			}
+			sort.Strings(ks)
+			for _, k := range ks {
+				uc := enc.usedCons[k]
+				if queued[k] || uc.Inline || eng.findFunction(uc) == nil {
+					continue
+				}
+				queued[k] = true
+				viaClosure[k] = true
+				work = append(work, uc)
+			}
 		}
 	}
 	// lemmas of contract files (closed formulas)
@@ -447,7 +485,7 @@ func cmdCheck(args []string) int {
 	for _, ob := range failed {
 		matched := false
 		for _, f := range findings {
-			if f.Status == "open" && f.Property == pc.ID && f.Pattern != nil && f.Pattern.MatchString(ob.Name) {
+			if f.Status == "open" && (f.Property == pc.ID || closureObs[ob]) && f.Pattern != nil && f.Pattern.MatchString(ob.Name) {
 				matched = true
 				fmt.Printf("KNOWN-FINDING: property=%s %s (%s)\n", pc.ID, ob.Name, f.Desc)
 			}
@@ -536,6 +574,7 @@ func cmdCheck(args []string) int {
 			"trusted_base":             []string{"go/packages + go/ssa (x/tools v0.29.0)", "gowp SSA->SMT encoding (Int with explicit wraparound, per-field heap arrays)", "z3 4.8.12, z3 5.1.0, cvc5 1.0", "assumed contracts listed under assumptions"},
 			"samples":                  samples,
 			"functions_under_contract": funcs,
+			"functions_added_by_callee_closure": closureFns, // contracted callees of the property's functions whose props line names other properties: verified here too, since the callers' proofs assume them
 			"callees_encoded_inline":   sortedKeys(inlined), // small loop-free repository functions without a contract: body used instead of a havoc
 			"by_solver":                bySolver,
 			"solver_time_s":            round3(solverTime),
